@@ -146,11 +146,37 @@ fn oracle_cases(ctx: &Ctx, count: usize, maxn: u64, maxn_prim: u64) -> Vec<AlgoC
         let method = loop { let m = rng.below(7) as u8; if accepts(algo, m) { break m; } };
         let wide = rng.below(3) != 0;
         let cap = if algo == 4 { maxn_prim } else { maxn };
-        let n = match rng.below(10) { 0 => rng.below(4), 1..=5 => rng.range(2, cap.min(24)), 6..=8 => rng.range(cap.min(16), cap.min(80)), _ => rng.range(cap / 2, cap) };
+        let n = match rng.below(12) { 0 => rng.below(4), 1..=5 => rng.range(2, cap.min(24)), 6..=8 => rng.range(cap.min(16), cap.min(80)), 9 | 10 => boundary_size(&mut rng, cap), _ => rng.range(cap / 2, cap) };
         let fam = FAMILIES[rng.below(FAMILIES.len() as u64) as usize];
         let fam = if rng.below(3) == 0 { ["lattice", "duppoints", "neartie", "allequal"][rng.below(4) as usize] } else { fam };
         let v = matrix_f64(&mut rng, n as usize, fam, wide);
         out.push(AlgoCase { algo, method, wide, n, bits: to_bits(&v, wide), family: fam });
+    }
+    out
+}
+
+/// Cases beyond the random sweep: sizes at which word-size (64), block-size (128) and
+/// narrow-integer (cluster sizes >= 256, cubes of sizes >= 2^32) shortcuts change behaviour.
+fn extra_cases(ctx: &Ctx) -> Vec<AlgoCase> {
+    let mut rng = Rng::new(ctx.seed.wrapping_mul(104729) ^ 0xE7A);
+    let mut out = vec![];
+    let mut push = |rng: &mut Rng, algo: u8, method: u8, n: u64, fam: &'static str| {
+        if accepts(algo, method) { let v = matrix_f64(rng, n as usize, fam, true); out.push(AlgoCase { algo, method, wide: true, n, bits: to_bits(&v, true), family: fam }); }
+    };
+    let sizes: &[u64] = if ctx.big { &[128, 129, 132, 135, 192, 256, 257, 320] } else { &[128, 132, 192] };
+    for &n in sizes {
+        // single linkage through the MST path and the others
+        for algo in [0u8, 1, 2, 3] { push(&mut rng, algo, 0, n, if n % 2 == 0 { "uniform" } else { "lattice" }); }
+        // the generic algorithm with every method (its initial scan and heap at these sizes)
+        for method in 0..7u8 { push(&mut rng, 3, method, n, "uniform"); }
+        for method in [1u8, 2, 4] { push(&mut rng, 2, method, n, "uniform"); }
+    }
+    if ctx.prop == "C02" || ctx.prop == "C12" {
+        // clusters of more than 1625 members: |AB|^3 >= 2^32 (only the recurrence reference is used there)
+        let big: &[u64] = if ctx.big { &[1650, 2049, 2600] } else { &[1650, 2049] };
+        for (k, &n) in big.iter().enumerate() {
+            for method in [5u8, 4, 2, 6] { if (k + method as usize) % 2 == 0 || ctx.big { push(&mut rng, 0, method, n, "uniform"); } }
+        }
     }
     out
 }
@@ -169,7 +195,9 @@ fn sweep(ctx: &Ctx, rep: &mut Report, check: &Checker) {
     let mut d64: kodama::Dendrogram<f64> = kodama::Dendrogram::new(0);
     let mut st32: kodama::LinkageState<f32> = kodama::LinkageState::new();
     let mut d32: kodama::Dendrogram<f32> = kodama::Dendrogram::new(0);
-    for c in oracle_cases(ctx, count, maxn, maxp) {
+    let mut cases = oracle_cases(ctx, count, maxn, maxp);
+    cases.extend(extra_cases(ctx));
+    for c in cases {
         tick(&ctx.progress, &c.describe());
         let out = run_fresh_w(c.wide, c.algo, c.method, c.n, &c.bits);
         rep.evaluations += 1;
@@ -270,6 +298,7 @@ fn check_replay(ctx: &Ctx, c: &AlgoCase, o: &Outcome) -> Option<String> {
         let dref = rp.full.get(s.c1, s.c2);
         if ctx.prop == "C02" {
             if !close(h, dref) { return Some(format!("step {}: height {:e} but reference criterion {:e}{}", i, h, if sq { dref.max(0.0).sqrt() } else { dref }, "")); }
+            if n > 400 { rp.merge(c.method, s.c1, s.c2); continue; }
             if let Some(dd) = direct_criterion(n, &v, c.method, &rp.members[s.c1], &rp.members[s.c2]) {
                 if !close(h, dd) { return Some(format!("step {}: height {:e} but criterion from the original matrix {:e}", i, h, if sq { dd.max(0.0).sqrt() } else { dd })); }
             }
@@ -344,8 +373,8 @@ fn sweep_single(ctx: &Ctx, rep: &mut Report) {
         let algo = (i % 5) as u8;
         let wide = i % 3 != 0;
         let cap: u64 = match (algo, ctx.big) { (4, false) => 40, (4, true) => 90, (_, false) => 150, (_, true) => 500 };
-        let n = if i % 10 == 0 { rng.range(2, 5) } else { rng.range(2, cap) };
-        let fam = ["lattice", "duppoints", "uniform", "negative", "allequal", "neartie", "euclid", "collinear", "pow2", "allzero"][rng.below(10) as usize];
+        let n = if i % 10 == 0 { rng.range(2, 5) } else if i % 10 == 3 || i % 10 == 7 { boundary_size(&mut rng, cap.max(40)) } else { rng.range(2, cap) };
+        let fam = ["lattice", "duppoints", "uniform", "negative", "allequal", "neartie", "euclid", "collinear", "pow2", "allzero", "negzero", "uniform"][rng.below(12) as usize];
         let v = matrix_f64(&mut rng, n as usize, fam, wide);
         cases.push(AlgoCase { algo, method: 0, wide, n, bits: to_bits(&v, wide), family: fam });
     }
@@ -408,7 +437,9 @@ fn agree(ctx: &Ctx, rep: &mut Report) {
         let wide = i % 4 != 0;
         let cap: u64 = match (wide, ctx.big) { (true, false) => 60, (true, true) => 220, (false, false) => 14, (false, true) => 24 };
         // a band of larger sizes (word-size / block-size effects) also in the quick tier
-        let n = if wide && i % 9 == 4 { rng.range(64, if ctx.big { 300 } else { 150 }) as usize } else { rng.range(2, cap) as usize };
+        let n = if wide && i % 9 == 4 { rng.range(64, if ctx.big { 300 } else { 150 }) as usize }
+                else if wide && i % 9 == 7 { if i % 2 == 0 { boundary_size(&mut rng, 257) as usize } else { rng.range(130, if ctx.big { 400 } else { 280 }) as usize } }
+                else { rng.range(2, cap) as usize };
         let kind = rng.below(3); let v0 = separated_matrix(&mut rng, n, kind);
         let bits = to_bits(&v0, wide);
         let base = AlgoCase { algo: 0, method, wide, n: n as u64, bits, family: "separated" };
@@ -607,7 +638,9 @@ fn permute(ctx: &Ctx, rep: &mut Report) {
         let wide = i % 4 != 0;
         let cap: u64 = match (wide, ctx.big) { (true, false) => 50, (true, true) => 200, (false, false) => 12, (false, true) => 20 };
         // a band of larger sizes (word-size and block-size effects: 64, 128, ...) also in the quick tier
-        let n = if wide && i % 9 == 4 { rng.range(64, if ctx.big { 300 } else { 150 }) as usize } else { rng.range(3, cap) as usize };
+        let n = if wide && i % 9 == 4 { rng.range(64, if ctx.big { 300 } else { 150 }) as usize }
+                else if wide && (i % 9 == 7 || i % 9 == 1) { if i % 2 == 0 { boundary_size(&mut rng, 257).max(3) as usize } else { rng.range(130, if ctx.big { 400 } else { 280 }) as usize } }
+                else { rng.range(3, cap) as usize };
         let kind = rng.below(3); let v0 = separated_matrix(&mut rng, n, kind);
         let bits = to_bits(&v0, wide);
         let probe = AlgoCase { algo: 0, method, wide, n: n as u64, bits: bits.clone(), family: "separated" };
